@@ -647,6 +647,102 @@ def wtypeIsExpiry (wt : WType) : Bool :=
   | some r => r.2 == "true"
   | none => false
 
+/-! ## what a batch leaves in the database for a re-created account (order/batch_storer.go, account modifiers)
+versus what the verifier checked (order/batch_verifier.go) -/
+
+/-- the fields of an account record that determine its output script (+ value); `batchInc` counts
+`IncrementKey` applications to the batch key -/
+structure AcctRec where
+  value : Nat
+  expiry : Nat
+  version : Nat
+  batchInc : Nat
+deriving Repr, DecidableEq
+
+/-- the auctioneer's diff for the account and what the batch version supports -/
+structure DiffIn where
+  supportsExt : Bool
+  supportsUpg : Bool
+  endingBalance : Nat
+  newExpiry : Nat
+  newVersion : Nat
+
+/-- one statement of the closure an `account.Modifier` constructor returns (regenerated text); `none` = a
+statement the model does not understand (e.g. a guard) -/
+def applyModifierStmt (stmt : String) (arg : Nat) (a : AcctRec) : Option AcctRec :=
+  if stmt == "account.Value = value" then some { a with value := arg }
+  else if stmt == "account.Expiry = expiry" then some { a with expiry := arg }
+  else if stmt == "account.Version = version" then some { a with version := arg }
+  else if stmt == "account.BatchKey = poolscript.IncrementKey(account.BatchKey)" then
+    some { a with batchInc := a.batchInc + 1 }
+  else if stmt == "account.State = state" || stmt == "account.OutPoint = op" ||
+      stmt == "account.HeightHint = heightHint" || stmt == "account.LatestTx = tx" then some a
+  else none
+
+def applyStmts : List String → Nat → AcctRec → Option AcctRec
+  | [], _, a => some a
+  | st :: rest, arg, a =>
+    match applyModifierStmt st arg a with
+    | some a' => applyStmts rest arg a'
+    | none => none
+
+def applyModifier (name : String) (arg : Nat) (a : AcctRec) : Option AcctRec :=
+  match Gen.C04.modifierBodies.find? (·.1 == name) with
+  | some row => applyStmts row.2 arg a
+  | none => none
+
+/-- conditions of batch storer / verifier the model understands, evaluated on the account as loaded -/
+def diffCondHolds (cond : String) (d : DiffIn) (a : AcctRec) : Option Bool :=
+  if cond == "" then some true
+  else if cond == "batch.Version.SupportsAccountExtension() && diff.NewExpiry != 0" then
+    some (d.supportsExt && d.newExpiry != 0)
+  else if cond == "batch.Version.SupportsAccountTaprootUpgrade() && diff.NewVersion > acct.Version" then
+    some (d.supportsUpg && decide (d.newVersion > a.version))
+  else none
+
+def diffArg (arg : String) (d : DiffIn) : Nat :=
+  if arg == "diff.NewExpiry" then d.newExpiry
+  else if arg == "diff.NewVersion" then d.newVersion
+  else if arg == "diff.EndingBalance" then d.endingBalance
+  else 0
+
+def recreatedCase : String := "switch diff.EndingState case auctioneerrpc.AccountDiff_OUTPUT_RECREATED"
+
+def storedAfterBatchWith : List (String × String × String × String) → DiffIn → AcctRec → AcctRec → Option AcctRec
+  | [], _, _, acc => some acc
+  | (label, cond, name, arg) :: rest, d, orig, acc =>
+    -- rows of other cases of the `switch diff.EndingState` do not apply to a re-created output
+    if label != "" && label != recreatedCase then storedAfterBatchWith rest d orig acc
+    else
+      match diffCondHolds cond d orig with
+      | none => none
+      | some false => storedAfterBatchWith rest d orig acc
+      | some true =>
+        match applyModifier name (diffArg arg d) acc with
+        | none => none
+        | some acc' => storedAfterBatchWith rest d orig acc'
+
+/-- the record `batchStorer.StorePendingBatch` stages for an account whose output is re-created -/
+def storedAfterBatch (d : DiffIn) (a : AcctRec) : Option AcctRec :=
+  storedAfterBatchWith Gen.C04.storerModifiers d a a
+
+def verifiedWith : List (String × String × String) → DiffIn → AcctRec → AcctRec → Option AcctRec
+  | [], _, _, acc => some acc
+  | (cond, field, val) :: rest, d, orig, acc =>
+    match diffCondHolds cond d orig with
+    | none => none
+    | some false => verifiedWith rest d orig acc
+    | some true =>
+      if field == "acct.Expiry" then verifiedWith rest d orig { acc with expiry := diffArg val d }
+      else if field == "acct.Version" then verifiedWith rest d orig { acc with version := diffArg val d }
+      else none
+
+/-- the parameters of the re-created output `batchVerifier.Verify` checks: the loaded account with its
+in-place updates, `NextOutputScript` (next batch key), value = ending balance -/
+def verifiedOutputParams (d : DiffIn) (a : AcctRec) : Option AcctRec :=
+  (verifiedWith Gen.C04.verifierAccountUpdates d a a).map fun x =>
+    { x with batchInc := x.batchInc + 1, value := d.endingBalance }
+
 /-- witnessType.witnessSize via the regenerated table and constants (0 = the error return) -/
 def sizeConstByName (s : String) : Nat :=
   if s == "poolscript.ExpiryWitnessSize" then Gen.C04.ExpiryWitnessSize
